@@ -250,6 +250,13 @@ func installHooks() {
 		w.mu.Unlock()
 	})
 	verifhook.SetYield(func(point string, id string) {
+		if strings.HasPrefix(point, "state.") {
+			// operations of the shared state: only the real-clock unit's slow store holds anybody there
+			if h := ttlHold.Load(); h != nil && strings.HasPrefix(point, "state.before:") {
+				h.maybeHold()
+			}
+			return
+		}
 		w := cur.Load()
 		if w == nil {
 			return
